@@ -290,6 +290,17 @@ func nondetSites(fns []*ssa.Function) []ndSite {
 	for _, fn := range fns {
 		for _, b := range fn.Blocks {
 			for _, in := range b.Instrs {
+				if x, isCall := in.(*ssa.Call); isCall {
+					// a byte slice handed out by a store's Get belongs to the store stack (the caches of the cache-wrapped
+					// branches, the tree's node cache): writing INTO it changes state outside the transactional branch,
+					// and a branch that is discarded later (simulation, a failing later message) leaves the change in
+					// this process's memory only
+					if cc := x.Common(); cc.IsInvoke() && cc.Method.Name() == "Get" && strings.HasSuffix(typeString(cc.Value.Type()), "KVStore") || !cc.IsInvoke() && strings.HasSuffix(callName(cc), "prefix.Store.Get") {
+						if wr := writeInto(x); wr != nil {
+							out = append(out, ndSite{fn, wr, "storebuf", "write into the byte slice returned by a store's Get", false, "the buffer a store hands out is written in place: the change lives in process-local caches, outside the transactional branch, and survives a discarded branch on this replica only"})
+						}
+					}
+				}
 				switch x := in.(type) {
 				case *ssa.Range:
 					if _, isMap := x.X.Type().Underlying().(*types.Map); isMap {
@@ -658,4 +669,64 @@ func hostDependentGlobal(g *ssa.Global) string {
 		}
 	}
 	return ""
+}
+
+// writeInto: an instruction that writes into the backing array of the byte slice v (or a reslice / phi of it): an
+// element store, a copy into it, encoding/binary's PutUintN, an append onto a reslice of it.
+func writeInto(v ssa.Value) ssa.Instruction {
+	seen := map[ssa.Value]bool{}
+	var found ssa.Instruction
+	var walk func(x ssa.Value, d int)
+	walk = func(x ssa.Value, d int) {
+		if found != nil || seen[x] || d > 6 || x.Referrers() == nil {
+			return
+		}
+		seen[x] = true
+		for _, ref := range *x.Referrers() {
+			switch y := ref.(type) {
+			case *ssa.Phi:
+				walk(y, d+1)
+			case *ssa.Slice:
+				if y.X == x {
+					walk(y, d+1)
+				}
+			case *ssa.ChangeType:
+				walk(y, d+1)
+			case *ssa.IndexAddr:
+				if y.X == x && y.Referrers() != nil {
+					for _, r2 := range *y.Referrers() {
+						if st, ok := r2.(*ssa.Store); ok && st.Addr == ssa.Value(y) {
+							found = st
+							return
+						}
+					}
+				}
+			case ssa.CallInstruction:
+				cc := y.Common()
+				if b, ok := cc.Value.(*ssa.Builtin); ok {
+					if (b.Name() == "copy" || b.Name() == "append") && len(cc.Args) > 0 && cc.Args[0] == x {
+						if b.Name() == "append" {
+							if _, isSl := x.(*ssa.Slice); !isSl {
+								continue // append onto the slice itself reallocates or extends past its length only
+							}
+						}
+						found = y
+						return
+					}
+					continue
+				}
+				n := callName(cc)
+				if (strings.Contains(n, "PutUint") || strings.Contains(n, "PutVarint") || strings.Contains(n, "PutUvarint")) && len(cc.Args) > 0 {
+					for _, a := range cc.Args {
+						if a == x {
+							found = y
+							return
+						}
+					}
+				}
+			}
+		}
+	}
+	walk(v, 0)
+	return found
 }
